@@ -1,7 +1,9 @@
 package props
 
 import (
+	"go/constant"
 	"go/token"
+	"go/types"
 	"strings"
 
 	"golang.org/x/tools/go/ssa"
@@ -342,9 +344,21 @@ func c19() []*Ob {
 						if !ok || (bo.Op != token.EQL && bo.Op != token.NEQ) || (bo.Op == token.EQL) != f.Val {
 							return false
 						}
-						for _, side := range []ssa.Value{bo.X, bo.Y} {
+						// status.Code(err) compared with codes.NotFound itself, not with any other code
+						notFound := int64(5)
+						if pk, ok := c.P.AllPkgs["google.golang.org/grpc/codes"]; ok && pk.Types != nil {
+							if k, ok := pk.Types.Scope().Lookup("NotFound").(*types.Const); ok {
+								if v, exact := constant.Int64Val(k.Val()); exact {
+									notFound = v
+								}
+							}
+						}
+						for i, side := range []ssa.Value{bo.X, bo.Y} {
 							if cl, ok := side.(*ssa.Call); ok && strings.HasSuffix(CallName(cl), "status.Code") {
-								return true
+								other := []ssa.Value{bo.Y, bo.X}[i]
+								if k, isK := ConstInt(other); isK && k == notFound {
+									return true
+								}
 							}
 						}
 						return false
@@ -384,6 +398,15 @@ func c19() []*Ob {
 				if n == 0 {
 					c.Undecided("errflow:FetchAsyncSearchResult:no-call", fn.Pos(), "no per-replica FetchAsyncSearchResult call found")
 				}
+			}},
+		{Prop: "C19", ID: "C19.8", Engine: "ORDER", Floor: 1,
+			Desc: "Done is never newer than the partial results it is returned with: AsyncSearcher.FetchSearchResult reads the request's state (the requests map, which carries Done) before it lists the partial-result files — read afterwards, a search that finishes in between is reported done with the files of only some fractions",
+			Check: func(c *Ctx) {
+				fn := c.Fn("(*fracmanager.AsyncSearcher).FetchSearchResult")
+				if fn == nil {
+					return
+				}
+				PrecedeI(c, fn, FieldLoad("fracmanager.AsyncSearcher", "requests"), "the read of the request state (as.requests[id])", CallSel(Callee("(*fracmanager.AsyncSearcher).loadQPRPaths")), "listing the partial-result files (loadQPRPaths)")
 			}},
 		{Prop: "C19", ID: "C19.5", Engine: "PROV+SIBLING", Floor: 1,
 			Desc: "same merge as the synchronous path: every seq.MergeQPRs call in fracmanager and frac/processor passes a histogram interval and an order derived from the request's SearchParams (no constants)",
